@@ -1033,12 +1033,19 @@ func TestVerifC12(t *testing.T) {
 					break
 				}
 			}
-			if killAt == 0 {
-				t.Fatalf("store %s: no kill point", name)
-			}
 			dir := filepath.Join(work, fmt.Sprintf("r%d-%s", round, name))
 			c12CopyTree(stores[from], dir)
-			if _, killed, _, _, _ := runChild(op, dir, killAt); !killed {
+			if killAt == 0 && name == "S2" {
+				// the tree under test never exposes a torn manifest (e.g. it writes manifests via
+				// temp + rename): fall back to a hand-made torn manifest so that the "prune skipped"
+				// stores are still exercised
+				out.Count("s2_hand_made")
+				p := filepath.Join(dir, "manifests", c12Lib+"z", "latest")
+				os.MkdirAll(filepath.Dir(p), 0o755)
+				os.WriteFile(p, nil, 0o644)
+			} else if killAt == 0 {
+				t.Fatalf("store %s: no kill point", name)
+			} else if _, killed, _, _, _ := runChild(op, dir, killAt); !killed {
 				t.Fatalf("store %s: not killed", name)
 			}
 			t.Setenv("OLLAMA_MODELS", dir)
@@ -1133,6 +1140,40 @@ func TestVerifC12(t *testing.T) {
 			out.Add("l1_effects_total", len(effs))
 			out.Count("op_" + sc.Op.Kind)
 			fullReadable := c12ReadableListing(full)
+			// contract behind the model's `put`: a manifest / part record is written by ONE write and every
+			// proper prefix of its text is rejected by the real decoder (or, minus the final newline, decodes
+			// to the same value), so a cut write is as unreadable as the empty file
+			{
+				cn := &c12Canon{store: full, temps: map[string]int{}}
+				for _, e := range evs {
+					if e.Nr != 1 || e.Ret <= 0 {
+						continue
+					}
+					cp := cn.path(e.Path)
+					if cp[0] != 'M' && cp[0] != 'R' {
+						continue
+					}
+					whole := c12Content(cp, e.Data)
+					for k := 0; k < len(e.Data); k++ {
+						out.Count("json_prefixes_checked")
+						var err error
+						got := ""
+						if cp[0] == 'M' {
+							var m Manifest
+							err = json.NewDecoder(bytes.NewReader(e.Data[:k])).Decode(&m)
+						} else {
+							var pr blobDownloadPart
+							err = json.NewDecoder(bytes.NewReader(e.Data[:k])).Decode(&pr)
+						}
+						if err == nil {
+							got = c12Content(cp, e.Data[:k])
+							if got != whole {
+								out.L2("prefix-readable", tag+" 0 -", fmt.Sprintf("a %d-byte prefix of the %d-byte text written to %s decodes to a different value", k, len(e.Data), cp))
+							}
+						}
+					}
+				}
+			}
 			t.Logf("== %s: result=%s store syscalls=%d effects=%d", tag, res, entered, len(effs))
 			if res != "ok" {
 				out.L2("uninterrupted-op-failed", tag+" 0 -", res)
